@@ -17,7 +17,9 @@ import warnings
 from . import c11_hints as H
 
 OBJS = {'int': 1, 'str': 'a', 'list_int': [1], 'list_str': ['a'], 'dict': {'a': 1}, 'tuple': (1, 'a'), 'none': None,
-        'nested': [[1]], 'float': 2.5, 'plain': H.Plain(), 'empty': [], 'zero': 0}
+        'nested': [[1]], 'float': 2.5, 'plain': H.Plain(), 'empty': [], 'zero': 0,
+        # classes as objects (what type[...] hints test with issubclass)
+        'cls_int': int, 'cls_bool': bool, 'cls_plain': H.Plain}
 PLACEHOLDER = '$%ROOT_PITH_LABEL/~'
 APIS = ['decor_param', 'decor_ret', 'is_bearable', 'die_if_unbearable', 'TypeHint', 'is_subhint']
 
